@@ -110,6 +110,13 @@ class Tracker:
                         replies[(k, fid)] = replies.get((k, fid), 0) + 1
                         if replies[(k, fid)] > 1:
                             self.viol.append(("C12", f"second frame with id {fid} on conn {k}", t))
+                    if n == "ERROR" and fget(f, "reason") == b"USERNAME_IN_USE" and k == k0:
+                        for (kind, params, pl) in sent:
+                            if kind == "IDENTIFY" and "username" in params and b"\\" not in params["username"]:
+                                want = params["username"].strip() + b"@" + domain
+                                holders = [k2 for k2 in live_before if k2 != k and users_before.get(k2) == want]
+                                if not holders:
+                                    self.viol.append(("C07", f"IDENTIFY {want!r} refused with USERNAME_IN_USE although no live connection holds that name", t))
                     if n == "ERROR" and fid is None and not v["closed"] and fget(f, "reason") not in (b"USERNAME_IN_USE",):
                         self.viol.append(("C12", f"id-less ERROR {fget(f, 'reason')} on a connection that stays open (conn {k})", t))
                 if v["closed"]:
@@ -454,13 +461,20 @@ def acl_check(case, obs):
             errs = [fget(f, "reason") for f in myf if fname(f) == "ERROR"]
             if kind == "SET_CHAN_ACL":
                 ty = params.get("type")
+                if "SET_CHAN_ACL_ACK" not in names and (ch, ty) in reported:
+                    # refused (or the connection was closed): the list must still be what was last reported
+                    reported[("frozen", ch, ty)] = list(reported[(ch, ty)])
                 if "SET_CHAN_ACL_ACK" in names:
+                    reported.pop(("frozen", ch, ty), None)
                     reported.pop((ch, ty), None)
                     # the named user NIDs must be present / absent in the next report: remembered as expectation
                     reported[("expect", ch, ty)] = (params.get("action"), [n for n in params.get("nids", b"").split(b" ") if b"@" in n])
             if kind == "GET_CHAN_ACL" and "CHAN_ACL" in names and "page" not in params:
                 ty = params.get("type")
                 lst = fget([f for f in myf if fname(f) == "CHAN_ACL"][0], "nids")
+                frozen = reported.pop(("frozen", ch, ty), None)
+                if frozen is not None and sorted(frozen) != sorted(lst):
+                    viol.append(("C03", f"a refused SET_CHAN_ACL changed the {ty} list of {ch}: it was {frozen}, now {lst}", t))
                 reported[(ch, ty)] = lst
                 exp = reported.pop(("expect", ch, ty), None)
                 if exp:
